@@ -374,7 +374,15 @@ class Interp:
         if isinstance(base, Class):
             ca = base.class_assigns()
             if attr in ca:
+                enum_like = any((dotted(b) or "").split(".")[-1] in ("Enum", "IntEnum", "StrEnum", "Flag", "IntFlag") for k in base.mro() for b in k.node.bases)
+                if enum_like and not isinstance(ca[attr], (ast.Tuple, ast.List, ast.Dict, ast.Set)) and not attr.startswith("_"):
+                    return self.class_member(base, attr, node)
+                if not enum_like:
+                    return self.eval_in_module(base.module, ca[attr])  # an ordinary class attribute: its value
                 return self.class_member(base, attr, node)
+            for k in base.mro()[1:]:
+                if attr in k.class_assigns() and not any((dotted(b) or "").split(".")[-1] in ("Enum", "IntEnum", "StrEnum", "Flag", "IntFlag") for k2 in k.mro() for b in k2.node.bases):
+                    return self.eval_in_module(k.module, k.class_assigns()[attr])  # inherited class attribute
             m = base.lookup(attr)
             if m is not None:
                 return BoundMethod(m, base) if m.is_classmethod else m
